@@ -102,6 +102,12 @@ impl<K, V> LruQueue<K, V> {
     pub fn clear(&mut self)
         ensures final(self).view() == Seq::<(K, V)>::empty(),
     { unimplemented!() }
+
+    #[verifier::external_body]
+    pub fn len(&self) -> (r: usize) ensures r == self.view().len() { unimplemented!() }
+
+    #[verifier::external_body]
+    pub fn is_empty(&self) -> (r: bool) ensures r == (self.view().len() == 0) { unimplemented!() }
 }
 
 /// owner of the mutex-protected state; after lock elision (R10) its critical sections take the state explicitly
